@@ -1060,7 +1060,12 @@ func (e *Env) applyContract(call *ast.CallExpr, st *State, cl callee, ct *Contra
 		if label == "" {
 			label = fmt.Sprintf("%d", i+1)
 		}
-		c.oblige(st, "pre", fmt.Sprintf("pre(%s, %s)", ord, label), call.Pos(), g, r.Text)
+		if c.Contract != nil && c.Contract.Flags["assumepre"] != "" {
+			// the caller's contract leaves the representation invariants its callees need unproved: listed
+			c.noteAssumed(fmt.Sprintf("%s: precondition of %s assumed: %s", c.Name, ord, r.Text))
+		} else {
+			c.oblige(st, "pre", fmt.Sprintf("pre(%s, %s)", ord, label), call.Pos(), g, r.Text)
+		}
 		st.assume(g)
 	}
 	old := st.clone()
